@@ -1135,12 +1135,14 @@ impl ConfigState {
             .fingerprint()
             .map_err(StateError::AddCertificate)?;
 
-        let entry = self.certificates.entry(add.address.into()).or_default();
-
+        // Resolve the names before touching the map: a certificate whose names
+        // cannot be extracted must not leave an empty bucket behind.
         let mut add = add.clone();
         add.certificate
             .apply_overriding_names()
             .map_err(StateError::AddCertificate)?;
+
+        let entry = self.certificates.entry(add.address.into()).or_default();
 
         if entry.contains_key(&fingerprint) {
             info!(
@@ -1194,6 +1196,14 @@ impl ConfigState {
                 .map_err(|decode_error| StateError::RemoveCertificate(decode_error.to_string()))?,
         );
 
+        // Compute the new fingerprint before removing the old certificate: an
+        // unparsable replacement must leave the old certificate in place.
+        let new_fingerprint = Fingerprint(
+            calculate_fingerprint(replace.new_certificate.certificate.as_bytes()).map_err(
+                |fingerprint_err| StateError::ReplaceCertificate(fingerprint_err.to_string()),
+            )?,
+        );
+
         self.certificates
             .get_mut(&replace_address)
             .ok_or(StateError::NotFound {
@@ -1201,12 +1211,6 @@ impl ConfigState {
                 id: replace.address.to_string(),
             })?
             .remove(&old_fingerprint);
-
-        let new_fingerprint = Fingerprint(
-            calculate_fingerprint(replace.new_certificate.certificate.as_bytes()).map_err(
-                |fingerprint_err| StateError::ReplaceCertificate(fingerprint_err.to_string()),
-            )?,
-        );
 
         self.certificates
             .get_mut(&replace_address)
